@@ -653,7 +653,7 @@ Proof. intros [w' [o [E HI]]]. subst r. exists w', (drop_sends o). split; [refle
 
 Theorem step_preserves_inv w ev : WInv w -> step_ok (step w ev).
 Proof.
-  intros HI. destruct ev as [peer seq m e|peer seq m e|seid items e|peer seq|peer seq|seid items e]; cbn [step].
+  intros HI. destruct ev as [peer seq m e|peer seq m e|seid items e|peer seq|peer seq|seid items e|peer seq m e|peer seq]; cbn [step].
   - destruct (is_request m); [apply recv_request_ok | apply recv_response_ok]; assumption.
   - destruct (is_request m); [apply recv_request_abort_ok; assumption|].
     destruct (klookup (peer, seq) (w_tx w)); apply step_ok_same; [apply WInv_set_tx|]; assumption.
@@ -662,6 +662,9 @@ Proof.
     destruct (tx_count t <? w_maxretrans w); apply step_ok_same; apply WInv_set_tx; assumption.
   - apply step_ok_same. apply WInv_set_rx. assumption.
   - apply step_ok_write_fails. apply serve_report_ok. assumption.
+  - apply step_ok_write_fails. destruct (is_request m); [apply recv_request_ok | apply recv_response_ok]; assumption.
+  - apply step_ok_write_fails. unfold timeout_tx. destruct (klookup (peer, seq) (w_tx w)) as [t|]; [|apply step_ok_same; assumption].
+    destruct (tx_count t <? w_maxretrans w); apply step_ok_same; apply WInv_set_tx; assumption.
 Qed.
 
 Lemma WInv_init q m : WInv (init q m).
